@@ -1,5 +1,6 @@
 """C18 — get_context, parent() and full_name describe the lexical nesting."""
 from pyvc.api import *
+from pyvc.values import MNONE as MNONE_
 from contracts import c03 as _c03
 
 SPEC_IMPORTS = ['contracts.common', 'contracts.c03']
@@ -128,10 +129,112 @@ FAMILIES = [
                                                        ret=Obj('Val18'), pure=True)}),
 ]
 
-CONTRACTS = [_fq_func, _fq_method, _fq_name, _fq_tree, _full_name] + PARENT + _c03.PARENT_SCOPE + [_c03._is_scope]
+# ------------------------------------------------------------------ self.x definitions: context of the place of assignment
+def _anc(k):
+    e = 'node'
+    for _ in range(k):
+        e = e + '.search_ancestor("funcdef", "classdef")'
+    return e
+
+
+def _replay_instance_ctx(inp):
+    """instance attributes assigned in a method, in a closure inside a method and in a method of a nested class: the
+    parent() chain of the definition must name every enclosing function and class"""
+    from pyvc.replay import run_real
+    import jedi
+    code = ('class Panel:\n'
+            '    def __init__(self):\n'
+            '        self.direct = 1\n'
+            '    def bind(self):\n'
+            '        def on_event():\n'
+            '            self.last_event = 2\n'
+            '            def later():\n'
+            '                self.done = 3\n'
+            '        return on_event\n'
+            'p = Panel()\n'
+            'p.%s\n' % inp['attr'])
+
+    def run():
+        s = jedi.Script(code)
+        d = s.goto(11, 3)[0]
+        chain = []
+        while d is not None:
+            chain.append(d.name)
+            d = d.parent()
+        return chain
+    out = run_real(run)
+    return {'EXPECTED': inp['chain']}, out
+
+
+def _instance_ctx_contract(d):
+    c = Contract(
+        id='C18.create_instance_context[%d]' % d, prop='C18',
+        clause='parent() of an instance attribute definition (self.x = ...) starts at the function the assignment '
+               'textually sits in: the context is that of the enclosing METHOD, refined to the innermost scope around the '
+               'assignment (closures and nested classes inside the method are not skipped) - %d scope(s) between the '
+               'assignment and the class body' % d,
+        file='jedi/inference/value/instance.py', qualname='_BaseTreeInstance.create_instance_context',
+        params={'self': Obj('Inst18'), 'class_context': Obj('ICtx18'), 'node': Obj('INode')},
+        families=['Inst18', 'ICtx18', 'INode', 'FV18', 'BM18'], ret=Obj('ICtx18'), tier='SB',
+        bounds={'scopes between the assignment and the class': d}, unroll={0: d + 1},
+        requires=['all(class_context.tree_node is not a for a in [%s])' % ', '.join(_anc(k) for k in range(1, d)) if d > 1
+                  else 'True',
+                  'class_context.tree_node is %s' % _anc(d), '%s.name.is_leaf' % _anc(d - 1)],
+        ensures=['result == BoundMethod(self, class_context, FunctionValue.from_context(class_context, %s))'
+                 '.as_context(method_arguments(self, %s.name.value)).create_context(node)' % (_anc(d - 1), _anc(d - 1))],
+        witness={}, replay=_replay_instance_ctx, concrete_only=True,
+        witness_library=[{'attr': 'direct', 'chain': ['direct', '__init__', 'Panel', '__main__']},
+                         {'attr': 'last_event', 'chain': ['last_event', 'on_event', 'bind', 'Panel', '__main__']},
+                         {'attr': 'done', 'chain': ['done', 'later', 'on_event', 'bind', 'Panel', '__main__']}],
+        concrete_ensures=['result == EXPECTED'],
+    )
+    return c
+
+
+INSTANCE_CTX = [_instance_ctx_contract(d) for d in (1, 2, 3)]
+
+CONTRACTS = INSTANCE_CTX + [_fq_func, _fq_method, _fq_name, _fq_tree, _full_name] + PARENT + _c03.PARENT_SCOPE + [_c03._is_scope]
+
+
+def _method_arguments(V, st, self_val, args, kwargs, node):
+    """spec helper: the arguments the bound method's context is created with: the instance's own for __init__"""
+    import z3
+    from pyvc.values import SV
+    from pyvc.types import sort_of
+    inst, name = args
+    t = Opt(ANY)
+    srt = sort_of(t)
+    a = V.get_attr(st, inst, '_arguments', node)
+    some = getattr(srt, 'some_' + srt.name())(a.z) if False else None
+    from pyvc.values import pack
+    return SV(t, z3.If(name.z == z3.StringVal('__init__'), pack(a, t), pack(MNONE_, t)))
 
 
 def register(reg):
+    _IN = Obj('INode')
+    reg.add_family(Family('INode', attrs={'name': _IN, 'value': STR, 'is_leaf': BOOL},
+                          attr_requires={'value': 'o.is_leaf'},
+                          methods={'search_ancestor': FnSpec('Node.search_ancestor', params=[('a', STR), ('b', STR)],
+                                                             ret=_IN, pure=True, assumed=True,
+                                                             note='nearest enclosing def/class (the class of the '
+                                                                  'instance is among them: precondition)')}))
+    reg.add_family(Family('Inst18', attrs={'_arguments': ANY}))
+    reg.add_family(Family('FV18'))
+    reg.add_family(Family('ICtx18', attrs={'tree_node': _IN},
+                          methods={'create_context': FnSpec('Context.create_context', params=[('node', _IN)],
+                                                            ret=Obj('ICtx18'), pure=True, assumed=False,
+                                                            note='C01/C18: leaf -> innermost context')}))
+    reg.add_family(Family('BM18', methods={'as_context': FnSpec('BoundMethod.as_context', params=[('arguments', Opt(ANY))],
+                                                                defaults={'arguments': None}, ret=Obj('ICtx18'),
+                                                                pure=True, assumed=True)}))
+    from pyvc.values import MNS, MFn
+    _fc = FnSpec('FunctionValue.from_context', params=[('context', Obj('ICtx18')), ('tree_node', _IN)], ret=Obj('FV18'),
+                 pure=True, assumed=True)
+    reg.names['FunctionValue'] = MNS('FunctionValue', {'from_context': MFn('spec', 'FunctionValue.from_context', spec=_fc)})
+    reg.names['BoundMethod'] = FnSpec('BoundMethod', params=[('instance', Obj('Inst18')), ('class_context', Obj('ICtx18')),
+                                                             ('function', Obj('FV18'))], ret=Obj('BM18'), pure=True,
+                                      assumed=True)
+    reg.names['method_arguments'] = FnSpec('method_arguments', impl=_method_arguments)
     pn = reg.families['PNode']
     pn.methods['search_ancestor'] = FnSpec('PNode.search_ancestor', params=[('a', STR), ('b', STR), ('c', STR)],
                                            ret=_PN, pure=True, assumed=True,
